@@ -6,8 +6,9 @@ props = [json.loads(l) for l in open(os.path.join(HERE, 'properties.jsonl'))]
 
 # id -> (engine, technique, level text, level note, design ref)
 VEC_TECH = 'model-based property testing: proptest-generated operation histories (shrunk to a replay file) run against the real ObservableVector/adapters and a plain-Vec reference model, with transparent taps at every stage boundary'
+VEC_EXTRA = ' Phases: random histories (quick 300k-1M), the same generator on vectors of up to 200 items (imbl multi-chunk), a bounded-exhaustive sweep where the property has one (C05-C07, C09-C11, C17), replay of the fixed defects\' reproductions; thorough adds 10-20x more cases, histories of up to 60 operations, the deeper sweep, and a libFuzzer+ASan campaign whose artifacts are decoded and re-judged (C20: also generated histories under Miri).'
 VEC_NOTE = 'Trusts the harness interpreter and its plain-Vec model (harness/src/engine_vec.rs), tokio broadcast semantics only through the one-directional lag rule, and the probe subscriber (a batched stream polled after every top-level operation) for message boundaries. Listed known-finding triggers are excluded by construction and counted in the evidence.'
-def V(text, ref): return ('vec', VEC_TECH, text, VEC_NOTE, ref)
+def V(text, ref): return ('vec', VEC_TECH, text + VEC_EXTRA, VEC_NOTE, ref)
 T = {
  'C05': V('Generated histories (all eleven mutators, entry ops, traversals, transactions, mid-history subscriptions, eager and bounded-lag polling, both stream flavours) are replayed into replicas that must equal a plain-Vec model after every operation; a direct call must yield exactly one diff, documented no-ops none; every subscriber must receive the same diffs per update as every other (poll-pattern independence, batched = concatenation). 300k histories quick / 4M thorough.', 'DESIGN.md section 5, C05'),
  'C06': V('Histories with unconstrained lag over capacities 1..64 and 1-4 subscribers: an exact mirror of each receiver counts undelivered updates, so every Reset is checked against "more than capacity pending" and against the current contents; replica == contents at every Pending; every diff applicable; every batched item brings the replica up to date.', 'DESIGN.md section 5, C06'),
